@@ -45,7 +45,10 @@ def run_row(case):
     ident = case.get('ident') or {}
     now = spside.NOW
     md = None
-    if ident.get('idp_keys', 'signing') != 'signing':
+    if ident.get('idp_keys', 'signing') in ('two-first', 'two-second'):
+        # key roll-over layout: the issuer publishes two signing certificates, the key in use is listed first / second
+        md = spside.idp_metadata(keys=(('signing', 1), ('signing', 3)) if ident['idp_keys'] == 'two-first' else (('signing', 3), ('signing', 1)))
+    elif ident.get('idp_keys', 'signing') != 'signing':
         # the issuer is known, but its metadata holds no signing key (encryption-only descriptor / none at all): no signature of its can be verified
         md = spside.idp_metadata(keys=(('encryption', 1),) if ident['idp_keys'] == 'encryption-only' else ())
     sp = spside.sp_for({'want_response_signed': wrs, 'want_assertions_signed': was, 'want_assertions_or_response_signed': wors}, md=md, config_class=ident.get('config_class', 'sp'))
@@ -93,7 +96,7 @@ def run_row(case):
         kw['outstanding_certs'] = {'id-req-1': {'key': open(world.key(4)).read(), 'cert': open(world.crt(4)).read()}}
     verdict = spside.deliver(sp, doc, **kw)
     want = expected_accept(wrs, was, wors, 'R' in shape, 'A' in shape, corrupt is None)
-    if idp_keys != 'signing' and shape != 'none':
+    if idp_keys in ('encryption-only', 'none') and shape != 'none':
         want = False        # a signature that is present cannot verify
     got = verdict[0] == 'accept'
     if got and not want:
@@ -118,7 +121,7 @@ def generated_strategy():
                                    'alg': st.sampled_from(build.HASHES), 'n': st.just(1),
                                    # the client loaded from an SPConfig or from the role-neutral Config; encrypted assertions for a configured key pair or for a per-request key
                                    'config_class': st.sampled_from(['sp', 'sp', 'generic']), 'per_request': st.booleans(),
-                                   'idp_keys': st.sampled_from(['signing', 'signing', 'signing', 'encryption-only', 'none']), 'enc_advice': st.booleans()})
+                                   'idp_keys': st.sampled_from(['signing', 'signing', 'two-first', 'two-second', 'encryption-only', 'none']), 'enc_advice': st.booleans()})
     return st.tuples(st.sampled_from(rows()), ident).map(lambda t: dict(t[0], ident=t[1]))
 
 
